@@ -501,6 +501,7 @@ class Run:
         self.fit_calls = list(self.rec.calls)
         self.fit_facts = self.fit_rets[0][0].facts if len(self.fit_rets) == 1 else None
         self.pred = None
+        self.orders = {}
 
     def predict(self, repo, future_X=None):
         self.rec.calls = []
@@ -530,9 +531,11 @@ def is_clone_of_param(v, run):
     return isinstance(v, EstV) and v.cloned and v.origin is run.est
 
 
-def unflat(x, scitype, ctx, rule, tag, loc, what):
+def unflat(x, scitype, ctx, rule, tag, loc, what, run=None, kind=None):
     """Strip the tabular flattening (and check it is present exactly for the tabular scitype)."""
     flat = isinstance(x, Flat) and x.keep == 1
+    if run is not None and flat:
+        run.orders[kind] = x.order
     ctx.check(flat == (scitype == TAB) if isinstance(x, Nd) else None, rule, tag + ":layout",
               "%s is %s as required by scitype %s" % (what, "flattened row-wise" if flat else "3-d", scitype),
               "%s is %r, which is not the layout scitype %s expects" % (what, x, scitype), loc)
@@ -563,6 +566,14 @@ def check_pred_window(ctx, rule, tag, loc, X3, run, facts, envs, what, cell_kw=N
 
 
 def rule_reducers(ctx, repo, classes):
+    done = set()
+    for cls in classes:
+        for mname in ("_predict_last_window", "_transform", "_fit"):
+            hit = repo.lookup_method(cls, mname)
+            if hit and id(hit[1]) not in done:
+                done.add(id(hit[1]))
+                check_no_stale_cache(ctx, repo, "R3" if mname == "_predict_last_window" else "R2",
+                                     "%s.%s:no-stale-cache" % (hit[0].name, mname), cls, hit[1])
     for cls in classes:
         strat = strategy_of(repo, cls)
         sci = scitype_of(repo, cls)
@@ -594,6 +605,12 @@ def rule_reducers(ctx, repo, classes):
                 pred_dirrec(ctx, repo, run, tag, sci, facts, envs)
             else:
                 ctx.undecided("R2", tag, "unknown strategy %r" % strat, ctx.loc(mod, cls.node))
+            if with_X and "fit" in run.orders and "predict" in run.orders:
+                ctx.check(run.orders["fit"] == run.orders["predict"], "R3", tag + ":flatten-order-agrees",
+                          "fit and predict flatten (variable, lag) in the same memory order (%s)" % run.orders["fit"],
+                          "the training rows are flattened in order %r but the prediction row in order %r: with exogenous columns "
+                          "every feature position means another (variable, lag) at prediction time" % (run.orders["fit"], run.orders["predict"]),
+                          loc_fit, witness={"variables": 2, "window_length": 2, "fit_order": run.orders["fit"], "predict_order": run.orders["predict"]})
 
 
 def one_fit_call(ctx, run, tag, loc, in_loop):
@@ -692,7 +709,7 @@ def check_fit_X(ctx, run, tag, loc, Xa, sci, facts, envs, fhvec=None, yt=None):
     window_y, window_x, target = transform_specs(W, fhvec, None)
     fhl = FHL if fhvec.base == "fh" else Q(facts.copy()).vec_elem(fhvec, vec_len(fhvec) - 1)
     rows = N - W - fhl + 1
-    X3 = unflat(Xa, sci, ctx, "R2", tag + ":fit-X", loc, "the X handed to regressor.fit")
+    X3 = unflat(Xa, sci, ctx, "R2", tag + ":fit-X", loc, "the X handed to regressor.fit", run, "fit")
     if not isinstance(X3, Nd) or X3.ndim != 3:
         ctx.undecided("R2", tag + ":fit-X", "X handed to fit is not the 3-d window array: %r" % (Xa,), loc)
         return
@@ -743,7 +760,7 @@ def pred_direct(ctx, repo, run, tag, sci, facts, envs, multi):
         ctx.undecided("R2", tag + ":predict-call", "expected one interpretable regressor.predict(X) site, found %d" % len(calls), loc)
         return
     c = calls[0]
-    X3 = unflat(c.args[0], sci, ctx, "R3", tag + ":X_pred", loc, "the X handed to regressor.predict")
+    X3 = unflat(c.args[0], sci, ctx, "R3", tag + ":X_pred", loc, "the X handed to regressor.predict", run, "predict")
     if isinstance(X3, Nd) and X3.ndim == 3:
         check_buffers(ctx, "R3", tag + ":X_pred", loc, [X3], pf, envs)
         check_pred_window(ctx, "R3", tag + ":X_pred", loc, X3, run, pf, envs, "X_pred", {"upto": c.seq + 1})
@@ -769,6 +786,7 @@ def pred_direct(ctx, repo, run, tag, sci, facts, envs, multi):
         ctx.check(None if isinstance(ret, Opq) else False, "R2", tag + ":returns", "", "the value returned is %r, not the per-step prediction array" % (ret,), loc)
         return
     eq_lin(ctx, "R2", tag + ":y_pred-length", loc, ret.shape[0], LFH, pf, envs, "length of the returned prediction array")
+    check_pred_dtype(ctx, "R2", tag + ":y_pred", loc, ret, "the array collecting the per-step regressor outputs")
     if len(c.loops) != 1 or not isinstance(c.loops[0].it, Rng):
         ctx.check(None, "R2", tag + ":predict-loop", "", "predictions are not made in one counting loop", loc)
         return
@@ -837,6 +855,10 @@ def pred_recursive(ctx, repo, run, tag, sci, facts, envs):
     s, ret = rets[0]
     pf = s.facts
     calls = [c for c in run.pred_calls if c.kind == "predict"]
+    if len(calls) == 1 and len(calls[0].args) == 1 and len(calls[0].loops) == 1 and isinstance(calls[0].loops[0].it, (Vec, FHV)) \
+            and calls[0].loops[0].var is not None:
+        replay_vector_loop(ctx, run, tag, loc, calls[0], sci, pf, envs)
+        return
     if len(calls) != 1 or len(calls[0].args) != 1 or len(calls[0].loops) != 1 or not isinstance(calls[0].loops[0].it, Rng):
         ctx.check(None, "R4", tag + ":predict-call", "", "expected one regressor.predict(X) site inside one counting loop", loc)
         return
@@ -848,7 +870,7 @@ def pred_recursive(ctx, repo, run, tag, sci, facts, envs):
     eq_lin(ctx, "R4", tag + ":iterations", loc, lp.it.hi, FHL, pf, envs, "number of recursive steps (must reach max(fh))")
     eq_lin(ctx, "R4", tag + ":first-step", loc, lp.it.lo, ZERO, pf, envs, "first recursive step index")
     eq_lin(ctx, "R4", tag + ":advance", loc, lp.it.step, ONE, pf, envs, "step of the recursion loop")
-    X3 = unflat(c.args[0], sci, ctx, "R4", tag + ":X_pred", loc, "the X handed to regressor.predict")
+    X3 = unflat(c.args[0], sci, ctx, "R4", tag + ":X_pred", loc, "the X handed to regressor.predict", run, "predict")
     if not (isinstance(X3, View) and X3.ndim == 3 and isinstance(X3.base, Buf)):
         ctx.undecided("R4", tag + ":X_pred", "prediction input is not a window view of a buffer: %r" % (c.args[0],), loc)
         return
@@ -873,6 +895,7 @@ def feedback_obligations(ctx, run, tag, loc, buf, X3, c, var, lp, pf, envs, ret,
     else:
         eq_lin(ctx, "R4", tag + ":slice-lo", loc, lo, lp.var, pf, envs, "start of the window at iteration i", loops=[lp])
         eq_lin(ctx, "R4", tag + ":slice-length", loc, hi - lo, W, pf, envs, "window length at iteration i", loops=[lp])
+    check_pred_dtype(ctx, "R4", tag + ":buffer", loc, buf, "the window buffer that receives the fed-back predictions")
     # the store that feeds predictions back
     fb = [st for st in buf.stores if st.loops and [l.node for l in st.loops] == [l.node for l in c.loops]]
     init = [st for st in buf.stores if not st.loops]
@@ -968,10 +991,31 @@ def feedback_obligations(ctx, run, tag, loc, buf, X3, c, var, lp, pf, envs, ret,
                   "returns y_pred[%r]; element k of y_pred is the output for step k+1, so step h must read index h-1" % (g,), loc,
                   witness={"index": repr(g)})
         eq_lin(ctx, "R4", tag + ":y_pred-length", loc, ypb.shape[0], FHL, pf, envs, "length of the recursive prediction array")
+        check_pred_dtype(ctx, "R4", tag + ":y_pred", loc, ypb, "the array collecting the recursive regressor outputs")
         check_ypred_store(ctx, tag, loc, ypb, c, var, lp, pf)
     else:
         ctx.check(None if isinstance(ret, Opq) else False, "R4", tag + ":returned-steps", "",
                   "the value returned is %r, not a selection of the recursive predictions by step" % (ret,), loc)
+
+
+FLOAT_DTYPES = ("name:float", "global:numpy.float64", "global:numpy.float_", "global:numpy.float32", "global:numpy.double")
+
+
+def check_pred_dtype(ctx, rule, tag, loc, b, what):
+    """A buffer that receives regressor outputs must be able to hold them: no dtype taken from the data."""
+    dt = getattr(b, "dtype", None)
+    c = tag + ":dtype"
+    if dt is None or (isinstance(dt, K) and dt.v in (None, "float", "float64", "float32")) or (isinstance(dt, Opq) and dt.tag in FLOAT_DTYPES):
+        ctx.ok(rule, c, "%s is allocated as a float array" % what, loc)
+    elif isinstance(dt, Opq) and dt.tag == "attr:dtype" and dt.args and isinstance(dt.args[0], Nd):
+        ctx.violation(rule, c, "%s takes its dtype from the observed data (%r): for an integer-valued series every regressor output stored "
+                      "in it is truncated, so the forecast returned for step h is not the regressor output" % (what, dt.args[0]), loc,
+                      witness={"series_dtype": "int64", "regressor_output": "43.23", "stored": "43"})
+    elif (isinstance(dt, Opq) and dt.tag in ("name:int", "global:numpy.int64", "global:numpy.int32", "global:numpy.int_")) or \
+            (isinstance(dt, K) and dt.v in ("int", "int64", "int32")):
+        ctx.violation(rule, c, "%s is allocated as an integer array: regressor outputs are truncated" % what, loc, witness={"dtype": repr(dt)})
+    else:
+        ctx.undecided(rule, c, "%s is allocated with dtype %r" % (what, dt), loc)
 
 
 def check_ypred_store(ctx, tag, loc, ypb, c, var, lp, pf):
@@ -1033,6 +1077,60 @@ def simulate_feedback(ctx, run, tag, loc, buf, X3, c, var, lp, pf, envs, expandi
                       loc, witness=wit)
 
 
+def replay_vector_loop(ctx, run, tag, loc, c, sci, pf, envs):
+    """The recursion visits the elements of a horizon-derived vector instead of every step 1..max(fh): replay the
+    extracted stores on instances.  The prediction stored at y_pred[p] is the forecast of step p+1, so its window
+    must hold the values of the times n-w+p .. n-1+p (observations, or the predictions stored for exactly those times)."""
+    lp = c.loops[0]
+    var = loop_var(c)
+    vec = lp.it.vec if isinstance(lp.it, FHV) else lp.it
+    X3 = c.args[0].base if isinstance(c.args[0], Flat) else c.args[0]
+    stores = [(b, st) for b in run.it.bufs for st in b.stores if isinstance(st.value, CallV) and st.value.node is c.node and st.box[0][2]]
+    if not (isinstance(X3, View) and X3.ndim == 3 and isinstance(X3.base, Buf)) or len(stores) != 1 or vec.neg:
+        ctx.undecided("R4", tag + ":replay", "recursion over a vector of steps with an uninterpretable window / output store", loc)
+        return
+    p_of = stores[0][1].box[0][0]
+    wit = None
+    for env in envs:
+        qc = Q(env=env)
+        try:
+            n, w = int(env.eval(N)), int(env.eval(W))
+            vals = sorted(env.vecs.get(vec.base, []))
+            for x in vals:
+                m = {var: Lin.c(x)}
+                p = int(env.eval(p_of.subst(m)))
+                view = subst_val(X3, m)
+                for cc in range(int(env.eval(view.shape[2]))):
+                    t = n - w + p + cc
+                    got = resolve(view.cell([ZERO, ZERO, Lin.c(cc)], qc, limit={var: (Lin.c(x), c.seq + 1)}), qc)
+                    if t < n:
+                        good = got == y_src(Lin.c(t))
+                        exp = "y[%d]" % t
+                    else:
+                        good = False
+                        exp = "the prediction stored for step %d" % (t - n + 1)
+                        if got is not None and got[0] == "val" and isinstance(got[1], CallV) and got[1].node is c.node:
+                            b = got[1].binding.get(var)
+                            good = b is not None and env.eval(p_of.subst({var: b})) == t - n
+                    if not good:
+                        wit = "opaque" if (got is None or (got[0] == "val" and not isinstance(got[1], CallV))) else \
+                            dict(env.describe(), predicting_step=p + 1, lag=cc, got=fmt(got), expected=exp)
+                        break
+                if wit:
+                    break
+        except Uneval:
+            continue
+        if wit:
+            break
+    if wit is None:
+        ctx.undecided("R4", tag + ":replay", "recursion over a vector of steps: no instance refutes it, but it is outside the provable idiom", loc)
+    elif wit == "opaque":
+        ctx.undecided("R4", tag + ":replay", "feedback buffer content not interpretable on the instance grid", loc)
+    else:
+        ctx.violation("R4", tag + ":replay", "the recursion only visits the requested steps: a lag of a later step's window is a prediction "
+                      "that was never made; witness %s" % witness_text(wit), loc, witness=wit)
+
+
 def fit_dirrec(ctx, repo, run, tag, sci, facts, envs):
     loc = ctx.loc(run.fit_cls.module, run.fit_fn)
     c = one_fit_call(ctx, run, tag, loc, True)
@@ -1044,7 +1142,7 @@ def fit_dirrec(ctx, repo, run, tag, sci, facts, envs):
     eq_lin(ctx, "R2", tag + ":fit-first", loc, lp.it.lo, ZERO, facts, envs, "first fitted step index")
     Xa, ya = c.args
     rows = N - W - FHL + 1
-    X3 = unflat(Xa, sci, ctx, "R2", tag + ":fit-X", loc, "the X handed to regressor.fit")
+    X3 = unflat(Xa, sci, ctx, "R2", tag + ":fit-X", loc, "the X handed to regressor.fit", run, "fit")
     if not (isinstance(X3, Nd) and X3.ndim == 3):
         ctx.undecided("R2", tag + ":fit-X", "X handed to fit is not a 3-d array: %r" % (Xa,), loc)
         return
@@ -1139,7 +1237,7 @@ def pred_dirrec(ctx, repo, run, tag, sci, facts, envs):
               "iteration i predicts with %r" % (c.recv,), loc)
     eq_lin(ctx, "R4", tag + ":iterations", loc, lp.it.hi, LFH, pf, envs, "number of dirrec steps")
     eq_lin(ctx, "R4", tag + ":first-step", loc, lp.it.lo, ZERO, pf, envs, "first dirrec step index")
-    X3 = unflat(c.args[0], sci, ctx, "R4", tag + ":X_pred", loc, "the X handed to regressor.predict")
+    X3 = unflat(c.args[0], sci, ctx, "R4", tag + ":X_pred", loc, "the X handed to regressor.predict", run, "predict")
     if not (isinstance(X3, View) and X3.ndim == 3 and isinstance(X3.base, Buf)):
         ctx.undecided("R4", tag + ":X_pred", "prediction input is not a window view of a buffer: %r" % (c.args[0],), loc)
         return
@@ -1148,6 +1246,7 @@ def pred_dirrec(ctx, repo, run, tag, sci, facts, envs):
     feedback_obligations(ctx, run, tag, loc, buf, X3, c, var, lp, pf, envs, ret, expanding=True)
     if isinstance(ret, Buf) and ret.ndim == 1:
         eq_lin(ctx, "R4", tag + ":y_pred-length", loc, ret.shape[0], LFH, pf, envs, "length of the returned prediction array")
+        check_pred_dtype(ctx, "R4", tag + ":y_pred", loc, ret, "the array collecting the per-step regressor outputs")
         check_ypred_store(ctx, tag, loc, ret, c, var, lp, pf)
     else:
         ctx.check(None if isinstance(ret, Opq) else False, "R4", tag + ":returned-steps", "",
@@ -1160,6 +1259,7 @@ def rule_last_window(ctx, repo):
     cls = repo.cls(SKT + ":_BaseWindowForecaster")
     fn = repo.func(SKT, "_BaseWindowForecaster._get_last_window")
     loc = ctx.loc(cls.module, fn)
+    check_no_stale_cache(ctx, repo, "R3", "_get_last_window:no-stale-cache", cls, fn)
     A = Lin.sym("a")  # observations stored after the cutoff (update() with old data / detached cutoff moves the cutoff inside the series)
     for with_X in (False, True):
         tag = "_get_last_window[X=%s]" % ("given" if with_X else "None")
@@ -1198,6 +1298,70 @@ def rule_last_window(ctx, repo):
                             "exogenous last window covers the same labels", "exogenous last window")
             else:
                 ctx.undecided("R3", tag + ":X", "exogenous last window is %r" % (Xw,), loc)
+
+
+def self_reads(expr):
+    return {n.attr for n in ast.walk(expr) if isinstance(n, ast.Attribute) and isinstance(n.value, ast.Name) and n.value.id == "self"
+            and isinstance(n.ctx, ast.Load)} | \
+           {n.args[1].value for n in ast.walk(expr) if isinstance(n, ast.Call) and dotted(n.func) == "getattr" and len(n.args) >= 2
+            and isinstance(n.args[0], ast.Name) and n.args[0].id == "self" and isinstance(n.args[1], ast.Constant)}
+
+
+def check_no_stale_cache(ctx, repo, rule, construct, cls, fn, resolve_props=True):
+    """(H2) A method must not serve its result from an instance attribute it filled on an earlier call unless the
+    guard that selects the cached value depends on everything the cached value was computed from."""
+    mod = cls.module
+    stored = {}
+    for attr, val, st in astq.self_attr_stores(fn):
+        if val is not None:
+            stored.setdefault(attr, []).append(val)
+
+    def closure(expr, depth=3):
+        """self attributes an expression depends on (locals inlined, properties of the class followed one level)."""
+        e = astq.inline_locals(fn, expr)
+        reads = set(self_reads(e))
+        for a in list(reads):
+            for k in repo.mro(cls):
+                if isinstance(k, ClassInfo) and a in k.properties and "getter" in k.properties[a]:
+                    reads |= self_reads(k.properties[a]["getter"])
+        return reads
+
+    served = []
+    for r in astq.returns(fn):
+        if r.value is None:
+            continue
+        v = astq.inline_locals(fn, r.value)
+        attrs = [n.attr for n in ([v] if not isinstance(v, ast.Tuple) else v.elts)
+                 if isinstance(n, ast.Attribute) and isinstance(n.value, ast.Name) and n.value.id == "self"]
+        cached = [a for a in attrs if a in stored]
+        if not cached:
+            continue
+        guards = [g for g in astq.enclosing_stmts(fn, r) if isinstance(g, ast.If)]
+        served.append((r, cached, guards))
+    loc = ctx.loc(mod, fn)
+    if not served:
+        ctx.ok(rule, construct, "no result is served from an instance attribute filled by an earlier call", loc)
+        return
+    for r, cached, guards in served:
+        key_reads = set()
+        for g in guards:
+            key_reads |= closure(g.test)
+        need = set()
+        for a in cached:
+            for val in stored[a]:
+                need |= closure(val)
+        key_attrs = {a for a in key_reads if a in stored}  # the remembered key itself
+        missing = sorted(need - key_reads - set(cached) - key_attrs)
+        if missing:
+            ctx.violation(rule, construct, "returns the remembered self.%s when only %s are unchanged, but it was computed from self.%s: a "
+                          "second call after these changed (update with revised values for the same time points, refit on another "
+                          "series with the same index) is served the stale result" % (
+                              "/".join(cached), sorted(key_reads - key_attrs) or "nothing", ", self.".join(missing)),
+                          ctx.loc(mod, r), witness={"history": "predict; change self.%s keeping %s; predict" % (
+                              missing[0], ", ".join(sorted(key_reads - key_attrs)) or "-"), "cached": cached, "not_in_key": missing})
+        else:
+            ctx.undecided(rule, construct, "result served from self.%s under a guard over %s: cannot decide that the guard compares "
+                          "everything by value" % ("/".join(cached), sorted(key_reads)), ctx.loc(mod, r))
 
 
 # ------------------------------------------------------------------------------- R5
@@ -1359,6 +1523,48 @@ def rule_dispatch(ctx, repo):
     ctx.check((bool(inferred) and bool(infs) and all(i.get("estimator") == P.get("estimator") for i in infs)) if gets else None,
               "R5", "make_reduction:infer-resolved", "scitype='infer' is resolved from the estimator before the lookup",
               "the registry is never indexed with a scitype inferred from the estimator ('infer' is not a registry key)", locm)
+    # per scenario, with the validators taken as identities (instances :identity above): which scitype indexes the registry
+    for given in ["infer"] + sorted(scitypes):
+        seen_s = []
+
+        def hk2(interp, frame, call, fname, args, kwargs, st, _base=make_hooks(rec, False)):
+            simple = (fname or "").split(".")[-1]
+            if simple in ("_check_strategy", "_check_scitype", "_infer_scitype", "_get_forecaster"):
+                b = astq.bind_call(repo.func(RED, simple), call)
+                vals = {p_: interp.ev(e_, st, frame) for p_, e_ in (b or {}).items() if isinstance(e_, ast.AST)}
+                if simple == "_check_strategy":
+                    return vals.get("strategy", Opq("?"))
+                if simple == "_check_scitype":
+                    return vals.get("scitype", Opq("?"))
+                if simple == "_infer_scitype":
+                    return Opq("inferred-scitype", [vals.get("estimator")])
+                seen_s.append(vals)
+                return Opq("Forecaster")
+            return _base(interp, frame, call, fname, args, kwargs, st)
+
+        it_s = make_interp(repo, rec, False)
+        it_s.hooks = hk2
+        it_s.no_inline |= {"_check_strategy", "_check_scitype", "_infer_scitype", "_get_forecaster"}
+        Ps = dict(P)
+        Ps["scitype"] = K(given)
+        Ps["strategy"] = K("recursive")
+        it_s.run_function(Frame(mod, mr), Ps, State())
+        c_ = "make_reduction[scitype=%s]:registry-key" % given
+        if not seen_s:
+            ctx.undecided("R5", c_, "no registry lookup reached under this scenario", locm)
+            continue
+        keys = [g.get("scitype") for g in seen_s]
+        if given == "infer":
+            good = all(isinstance(k_, Opq) and k_.tag == "inferred-scitype" and k_.args and k_.args[0] == P.get("estimator") for k_ in keys)
+            ctx.check(good, "R5", c_, "scitype='infer' is replaced by the scitype inferred from the estimator",
+                      "with scitype='infer' the registry is indexed with %r" % (keys,), locm)
+        else:
+            good = all(k_ == K(given) for k_ in keys)
+            ctx.check(good if all(isinstance(k_, (K, Opq)) for k_ in keys) else None, "R5", c_,
+                      "an explicitly given scitype indexes the registry unchanged",
+                      "an explicitly given scitype %r is replaced by %r before the lookup (the caller's choice is ignored, e.g. a "
+                      "time-series regressor requested as tabular-regressor)" % (given, keys), locm,
+                      witness={"scitype": given, "registry_key": repr(keys)})
     rets = [o[1] for s, o in traces if o[0] == "return"]
     calls = [n for n in ast.walk(mr) if isinstance(n, ast.Call) and isinstance(n.func, ast.Name)
              and any(isinstance(v, ast.Call) and dotted(v.func) == "_get_forecaster" for v in astq.assigned_values(mr, n.func.id))]
